@@ -123,7 +123,7 @@ def coq_makefile():
 def coq_make(targets, timeout=3000):
     """make the given .vo targets (full .vo build, never -vos). Returns (ok, output)."""
     coq_makefile()
-    rc, out = sh(["timeout", str(timeout), "make", f"-j{JOBS}"] + targets, cwd=COQ)
+    rc, out = sh(["timeout", str(timeout), "make", "-k", f"-j{JOBS}"] + targets, cwd=COQ)
     return rc == 0, out
 
 
